@@ -7,7 +7,7 @@ R06.1 in every DF5/DF21 context the value stored to (and left in) Plane.squawk i
 R06.2 no other downlink format stores squawk.
 """
 from ..absint.batch import k2_results
-from ..absint.query import accepted, aff, int_aff, option_some_payload, sel, stores_of, unchanged
+from ..absint.query import same_fn, accepted, aff, int_aff, option_some_payload, sel, stores_of, unchanged
 from ..facts import Broken
 from ..report import Finding
 
@@ -49,11 +49,11 @@ def run(facts, rep, tier):
             # the store must happen on every path of the update: the post-state itself must be the exact value
             pv = r.post_update.fields.get("squawk") if r.post_update is not None else None
             only, p = option_some_payload(pv)
-            if ok and not (only and int_aff(p) == want):
+            if ok and not (only and (int_aff(p) == want or same_fn(p, want))):
                 ok, why = False, "after the update the row may still hold the old squawk: %r" % (pv,)
             if ok and r.df == 5 and r.post_create is not None:
                 only, p = option_some_payload(r.post_create.fields.get("squawk"))
-                if not (only and int_aff(p) == want):
+                if not (only and (int_aff(p) == want or same_fn(p, want))):
                     ok, why = False, "a row created by a DF5 reply does not get the squawk: %r" % (r.post_create.fields.get("squawk"),)
             rep.oblige(ok, ("squawk", r.ctx["label"]))
             if n1 <= 2:
